@@ -207,3 +207,54 @@ Section Vector.
     rewrite firstn_add. f_equal. unfold body, slice. f_equal. lia.
   Qed.
 End Vector.
+
+(* ---- C05 for coded enumerations and their vectors: the object parsed from any accepted buffer composes, and the
+   composed bytes parse back to the same object, consuming all of them --------------------------------------- *)
+Lemma parse_numeric_firstn_app o w (buf s : bytes) n : In w widths -> w <= n -> n <= zlen buf ->
+  parse_numeric o w (firstn (Z.to_nat n) buf ++ s) 0 = parse_numeric o w buf 0.
+Proof.
+  intros Hw H1 H2. destruct (widths_pos w Hw) as [Hp [k Hk]]. unfold parse_numeric, parse_numeric_array. rewrite Hk.
+  assert (Lf : zlen (firstn (Z.to_nat n) buf) = n) by (unfold zlen in *; rewrite firstn_length; lia).
+  rewrite zlen_app, Lf. pose proof (zlen_nonneg s).
+  destruct (Z.gtb_spec (0 + 1 * w) (n + zlen s)); [lia|]. destruct (Z.gtb_spec (0 + 1 * w) (zlen buf)); [lia|].
+  cbn [bind]. change (Z.to_nat 1) with 1%nat. cbn [parse_items]. rewrite slice_firstn_app by lia. reflexivity.
+Qed.
+
+Lemma parse_enum_canonical tbl w buf i n : In w widths -> parse_enum tbl w buf = Ok (i, n) ->
+  exists b2, compose_enum tbl w i = Ok b2 /\ parse_enum tbl w b2 = Ok (i, zlen b2).
+Proof.
+  intros Hw P. destruct (parse_enum_sound tbl w Hw buf i n P) as [-> [Hl [_ Hc]]]. destruct (widths_pos w Hw) as [Hp _].
+  exists (firstn (Z.to_nat w) buf). split; [exact Hc|].
+  assert (Lf : zlen (firstn (Z.to_nat w) buf) = w) by (unfold zlen in *; rewrite firstn_length; lia).
+  rewrite Lf. unfold parse_enum in *. rewrite <- (app_nil_r (firstn (Z.to_nat w) buf)).
+  rewrite parse_numeric_firstn_app by (assumption || lia). exact P.
+Qed.
+
+Lemma enum_vector_delimited p tbl grease w buf items n s : In (vnum p) widths ->
+  parse_enum_vector p tbl grease w buf = Ok (items, n) -> n <= zlen buf ->
+  parse_enum_vector p tbl grease w (firstn (Z.to_nat n) buf ++ s) = Ok (items, n).
+Proof.
+  intros Hn P Hle. destruct (widths_pos _ Hn) as [Hp _]. revert P. unfold parse_enum_vector.
+  destruct (parse_numeric Network (vnum p) buf 0) as [[len n0]|e] eqn:E; cbn [bind]; [|discriminate].
+  destruct (parse_numeric_range Network (vnum p) buf 0 len n0 Hn ltac:(lia) E) as [-> [Hr Hl]].
+  destruct (Z.gtb_spec len (zlen buf - vnum p)); [discriminate|].
+  set (body := slice buf (vnum p) (vnum p + len)).
+  destruct (derived_array (parse_eitem tbl grease w) (S (length body)) body) as [its|e] eqn:D; cbn [bind]; [|discriminate].
+  destruct (check_bounds p (zlen its * w)) as [u|e] eqn:C; cbn [bind]; [|discriminate].
+  intros Q. apply Ok_inj in Q. inversion Q; subst its n; clear Q.
+  rewrite parse_numeric_firstn_app by (assumption || lia). rewrite E. cbn [bind].
+  assert (Lf : zlen (firstn (Z.to_nat (vnum p + len)) buf) = vnum p + len) by (unfold zlen in *; rewrite firstn_length; lia).
+  rewrite zlen_app, Lf. pose proof (zlen_nonneg s). destruct (Z.gtb_spec len (vnum p + len + zlen s - vnum p)); [lia|].
+  rewrite slice_firstn_app by lia. fold body. rewrite D. cbn [bind]. rewrite C. reflexivity.
+Qed.
+
+Lemma enum_vector_canonical p tbl grease w buf items n : In w widths -> In (vnum p) widths ->
+  parse_enum_vector p tbl grease w buf = Ok (items, n) ->
+  exists b2, compose_enum_vector p tbl w items = Ok b2 /\ parse_enum_vector p tbl grease w b2 = Ok (items, zlen b2).
+Proof.
+  intros Hw Hn P. destruct (enum_vector_verbatim tbl grease w Hw p Hn buf items n P) as [C [Hle [Hi Hb]]].
+  destruct (widths_pos _ Hn) as [Hp _]. destruct (widths_pos _ Hw) as [Hpw _]. pose proof (zlen_nonneg items).
+  exists (firstn (Z.to_nat n) buf). split; [exact C|].
+  assert (Lf : zlen (firstn (Z.to_nat n) buf) = n) by (unfold zlen in *; rewrite firstn_length; nia).
+  rewrite Lf. rewrite <- (app_nil_r (firstn (Z.to_nat n) buf)). apply enum_vector_delimited; assumption.
+Qed.
